@@ -243,6 +243,7 @@ func dirkStep(j *judge, si int, adm []int, prev *dirkKnown, knownObs map[int]boo
 		named[w] = true
 	}
 	nowYes := map[int]bool{}
+	nowMaybe := map[int]bool{}
 	overObserved := false
 	anyError := false
 	for _, a := range accounts() {
@@ -258,6 +259,8 @@ func dirkStep(j *judge, si int, adm []int, prev *dirkKnown, knownObs map[int]boo
 		switch adm[a.ID] {
 		case admitYes:
 			nowYes[a.ID] = true
+		case admitUndecided:
+			nowMaybe[a.ID] = true
 		case admitNo:
 			if knownObs[a.ID] {
 				overObserved = true
@@ -270,6 +273,9 @@ func dirkStep(j *judge, si int, adm []int, prev *dirkKnown, knownObs map[int]boo
 		for id := range nowYes {
 			next.lower[id], next.upper[id] = true, true
 		}
+		for id := range nowMaybe {
+			next.upper[id] = true
+		}
 		if anyError {
 			j.st.label("signer:one-wallet-failed-another-delivered")
 			for id := range prev.upper {
@@ -281,6 +287,17 @@ func dirkStep(j *judge, si int, adm []int, prev *dirkKnown, knownObs map[int]boo
 		if si > 0 {
 			j.st.label("signer:listing-replaced-accounts")
 		}
+	case len(nowMaybe) > 0:
+		// Only accounts whose admission is not decided were offered: the manager
+		// may have taken them (replacing the old accounts) or seen nothing
+		// (retaining them).
+		for id := range prev.upper {
+			next.upper[id] = true
+		}
+		for id := range nowMaybe {
+			next.upper[id] = true
+		}
+		j.st.label("signer:only-undecided-delivered")
 	case overObserved:
 		// Only accounts that no specifier matches were taken from this listing
 		// (a listed finding); whether the old accounts survive that is not decided.
